@@ -127,10 +127,14 @@ func (vars *Vars) Merge(other *Vars, include *Include) {
 	defer other.mutex.RUnlock()
 	other.mutex.RLock()
 	for pair := other.om.Front(); pair != nil; pair = pair.Next() {
+		// The directory is set on the copy that goes into vars: other belongs
+		// to the included Taskfile, which may be merged into other Taskfiles
+		// (or into this one again) with another directory or with none
+		v := pair.Value
 		if include != nil && include.AdvancedImport {
-			pair.Value.Dir = include.Dir
+			v.Dir = include.Dir
 		}
-		vars.om.Set(pair.Key, pair.Value)
+		vars.om.Set(pair.Key, v)
 	}
 }
 
